@@ -631,7 +631,10 @@ class Models:
             return for_fdict(self, ex, s, seq, st)
         loops = st.ghost.get("loops", {})
         ordinal = self.loop_ordinal(ex, s, st)
-        spec = loops.get(ordinal)
+        qn = st.env["__func__"].qualname
+        spec = loops.get((qn, ordinal))
+        if spec is None and qn == ex.top:
+            spec = loops.get(ordinal)
         if spec is None:
             ex.unsupported(s, f"loop #{ordinal} over symbolic sequence needs an invariant in the sidecar")
         a = st.ghost.get("args")
@@ -1107,6 +1110,10 @@ class Models:
             if not args:
                 return [Val([], st)]
             if isinstance(args[0], GenCall):
+                gc = self.registry.get(args[0].fr.qualname)
+                if gc is not None and getattr(gc, "as_list", None) is not None and args[0].fr.qualname != ex.top:
+                    ex.stats["calls_by_contract"] += 1
+                    return gc.as_list(ex, args[0], st, node)
                 return self.collect_generator(ex, args[0], st, node)
             if isinstance(args[0], SSeq):
                 return [Val(args[0], st)]
@@ -1196,6 +1203,13 @@ class Models:
     def call_method(self, ex, obj, name, args, kwargs, st, node):
         if obj is os.environ and name == "copy":
             return [Val({"<os.environ>": True}, st)]
+        if (obj is sys.stdout or obj is sys.stderr or getattr(obj, "name", None) in ("<stdout>", "<stderr>")) and name in ("write", "isatty", "flush"):
+            if name == "write":
+                st.emit("Out", tuple(args))
+                return [Val(None, st)]
+            if name == "isatty":
+                return [Val(V.sbool(fresh_name("isatty")), st)]
+            return [Val(None, st)]
         if isinstance(obj, SRec):
             if name == "_replace":
                 bad = [k for k in kwargs if k not in obj.fields]
